@@ -584,6 +584,38 @@ func main() {
 		}
 	}
 
+	// ---- queries are pure: a lookup before an insertion must not change what lookups answer after it,
+	// whatever the order of the lookups (every state x every earlier query x every AddRange x the
+	// later queries in descending order; the per-state check above asks in ascending order)
+	for _, st := range states {
+		enter(func() string { return "Has, AddRange, Has on " + st.key + " (= " + recipeString(st) + ")" })
+		for q1 := 0; q1 <= winHi; q1++ {
+			for b := int32(0); b <= top; b++ {
+				for e := b; e <= top; e++ {
+					res.Checks++
+					want := st.model | rangeMask(b, e)
+					var got uint64
+					pan := protect(func() {
+						s := clone(st.live)
+						s.Has(val(int32(q1)))
+						s.AddRange(val(b), val(e))
+						for x := winHi; x >= 0; x-- {
+							if s.Has(val(int32(x))) {
+								got |= 1 << uint(x)
+							}
+						}
+					})
+					if pan != "" {
+						report("Has-AddRange-Has-panic", st, nil, "no panic", fmt.Sprintf("Has(%d); AddRange(%d,%d); Has(..): %s", q1, b, e, pan))
+					} else if got != want&(1<<uint(winHi+1)-1) {
+						report("Has-after-earlier-query", st, nil, modelStr(want&(1<<uint(winHi+1)-1)), fmt.Sprintf("Has(%d); AddRange(%d,%d); then Has for %d..0 answers %s", q1, b, e, winHi, modelStr(got)))
+					}
+				}
+			}
+		}
+	}
+	leave()
+
 	// ---- per-state Complement oracle and pairwise oracles over all reached states
 	lim := 4 * (L + 4)
 	for _, st := range states {
